@@ -753,6 +753,19 @@ func (s *Store[H]) init(ctx context.Context) error {
 		log.Debugw("initialized tail", "height", tail.Height())
 	}
 
+	// A crash in the middle of a deletion on a datastore without atomic batches can leave one
+	// of the two pointers on a deleted header, and readByKey drops such a pointer.
+	// Start from the surviving end and walk to the other one, so that Tail <= Head holds again.
+	switch {
+	case !head.IsZero() && tail.IsZero():
+		s.tailHeader.Store(&head)
+		s.recedeTail(ctx)
+	case head.IsZero() && !tail.IsZero():
+		s.contiguousHead.Store(&tail)
+		s.heightSub.Init(tail.Height())
+		s.advanceHead(ctx)
+	}
+
 	return nil
 }
 
